@@ -41,6 +41,10 @@ func c18Vals() []expr.Expr {
 		// zero is a value too; and a wide constant whose low 8 bytes are zero
 		ir.ConstU(0, 2),
 		expr.NewConst([]byte{0, 0, 0, 0, 0, 0, 0, 0, 0x91, 0x92}, 10),
+		// conditionals whose compared operands are WIDER than the conditional (the comparison is
+		// made at the conditional's own width: 0 < 0x100 here, and x < x never)
+		expr.NewLess(ir.ConstU(0x00010000, 4), ir.ConstU(0x00000100, 4), ir.ConstU(0x1111, 2), ir.ConstU(0x2222, 2), 2),
+		expr.NewLess(expr.NewRegLoad("x", 4), expr.NewBinary(expr.Add, expr.NewRegLoad("x", 4), ir.ConstU(0x00010000, 4), 4), ir.ConstU(0x11, 1), ir.ConstU(0x22, 1), 2),
 	}
 }
 
@@ -233,7 +237,7 @@ func c18Run(c c18Case) (*eng.Fail, int) {
 func init() {
 	checks["C18"] = eng.Check{
 		Hist: true,
-		Rule: "every history of <=3 operations over {Apply(RegStore) and RegMap.Store to keys a,b with 8 value shapes (constants of width 1,2,4, register load, memory load, binary, a zero constant, a 10-byte constant whose low 8 bytes are zero) at write widths 1,2,4 (and 8,16,40,255 for three shapes); register copies (the expression read from one register at width 1,2,4 written to the other, so that both hold one object); Apply(MemStore) with constant / foldable / non-constant addresses (8 shapes, incl. addresses reading registers the history wrote with constants) at widths 1,2,4; a register called like the memory space and a memory space called like a register} on a fresh real State (quick: <=2 operations over this alphabet and all 3-operation histories over the register-only sub-alphabet of 30 operations); after every operation (and, in a second run of each history, only after the last one) Load(k,w) for k in {a,b,c}, w in {1,2,3,4,8,16,33,255} compared (presence, width, value under 5 valuations) with the last written value adjusted to its write width then to the read width; refused memory writes must leave the full state snapshot unchanged; accepted ones are compared byte-wise; the values handed in are digest-checked after the history. Non-trivial = history with >=2 operations.",
+		Rule: "every history of <=3 operations over {Apply(RegStore) and RegMap.Store to keys a,b with 8 value shapes (constants of width 1,2,4, register load, memory load, binary, a zero constant, a 10-byte constant whose low 8 bytes are zero) at write widths 1,2,4 (and 8,16,40,255 for three shapes), two conditionals whose compared operands are wider than the conditional at write widths 1,2,4,8; register copies (the expression read from one register at width 1,2,4 written to the other, so that both hold one object); Apply(MemStore) with constant / foldable / non-constant addresses (8 shapes, incl. addresses reading registers the history wrote with constants) at widths 1,2,4; a register called like the memory space and a memory space called like a register} on a fresh real State (quick: <=2 operations over this alphabet and all 3-operation histories over the register-only sub-alphabet of 30 operations); after every operation (and, in a second run of each history, only after the last one) Load(k,w) for k in {a,b,c}, w in {1,2,3,4,8,16,33,255} compared (presence, width, value under 5 valuations) with the last written value adjusted to its write width then to the read width; refused memory writes must leave the full state snapshot unchanged; accepted ones are compared byte-wise; the values handed in are digest-checked after the history. Non-trivial = history with >=2 operations.",
 		Run: func(r *eng.Run) {
 			var alpha []c18Op
 			for _, k := range []string{"a", "b"} {
@@ -244,6 +248,11 @@ func init() {
 							alpha = append(alpha, c18Op{Kind: "regmap", Key: k, Val: v, W: w})
 						}
 					}
+				}
+			}
+			for _, v := range []int{8, 9} {
+				for _, w := range []int{1, 2, 4, 8} {
+					alpha = append(alpha, c18Op{Kind: "reg", Key: "a", Val: v, W: w}, c18Op{Kind: "regmap", Key: "b", Val: v, W: w})
 				}
 			}
 			for _, w := range []int{8, 16, 40, 255} {
